@@ -101,8 +101,7 @@ pub fn gen_case(rng: &mut Rng, corpus: &[(String, Vec<u8>)], idx: usize) -> CliC
                 c
             }
         };
-        // > 1 MB in a multi-byte code page (character boundary at byte 500 000): what gets written must
-        // still be the whole text
+        let _ = k;
         files.push((name, content));
     }
     let mut args_files: Vec<String> = files.iter().map(|f| f.0.clone()).collect();
@@ -153,6 +152,15 @@ pub fn gen_case(rng: &mut Rng, corpus: &[(String, Vec<u8>)], idx: usize) -> CliC
         normalize = true;
         replace = false;
         force = false;
+    }
+    if alternatives && !normalize && idx % 2 == 0 {
+        let (name, enc) = *rng.pick(&[("russian", "koi8-r"), ("russian", "windows-1251"), ("greek", "iso-8859-7"), ("hebrew", "windows-1255"), ("turkish", "windows-1254"), ("arabic", "windows-1256"), ("bulgarian", "iso-8859-5")]);
+        let t = TEXTS.iter().find(|(n, _)| *n == name).unwrap().1;
+        let k = rng.range(300, 1500);
+        let text = stretch(rng, t, k);
+        if let Some(b) = enc_bytes(&text, enc) {
+            files[0].1 = b;
+        }
     }
     // > 1 MB in a multi-byte code page (character boundary at byte 500 000): what gets written must
     // still be the whole text (plain invocation: valid flags, default threshold, the file exists)
